@@ -155,10 +155,10 @@ for h, tier in [("k_enc_select_odd_lpc", "thorough"), ("k_enc_select_odd_nolpc",
                  "a candidate is chosen only when strictly smaller than n*(bps-k); both failing => VERBATIM",
         stubs=["encode::encode_fixed_subframe (writes some bits or fails)", "encode::encode_lpc_subframe (writes some bits or fails)"], timeout=900)
 for h, tier in [("k_enc_fixed_n1", "quick"), ("k_enc_fixed_n3", "quick"), ("k_enc_fixed_n4", "thorough")]:
-    add("K-" + h[2:], ["C02", "C01"], E + h, tier=tier, bound="block <= 4; bits-per-sample 1..32, wasted 0..3, all sample values",
+    add("K-" + h[2:], ["C02", "C01", "C19"], E + h, tier=tier, bound="block <= 4; bits-per-sample 1..32, wasted 0..3, all sample values",
         functions=["encode::encode_fixed_subframe", "stream::SubframeHeader::to_writer", "stream::SubframeHeaderType::to_writer"],
         contract="encode_fixed_subframe: header FIXED(k) with wasted-bits field, first k samples at bps bits, then write_residuals(k, r) with r == RFC 9639 9.2.5 residuals "
-                 "of the order-k fixed predictor; k <= 4 and k < n; never panics", stubs=["encode::write_residuals (contract: K-write_res_po0_*)"], timeout=900)
+                 "of the order-k fixed predictor; k <= 4 and k < n; never panics; a block of equal samples reaches the residual coder as all-zero residuals (C19 constant-block clause)", stubs=["encode::write_residuals (contract: K-write_res_po0_*)"], timeout=900)
 
 add("K-options_setters", ["C15"], E + "k_options_setters", domain="full", functions=["encode::Options::block_size", "encode::Options::max_lpc_order", "encode::Options::max_partition_order"],
     contract="Options setters: Ok iff block size >= 16 / LPC order None or 1..=32 / partition order <= 15, value stored; never panic", timeout=300)
@@ -407,7 +407,7 @@ for h in ["k_stream_sync_after_stray_ff_c6", "k_stream_sync_after_stray_ff_c1", 
         stubs=["stream::FrameHeader::read_subset (records the candidate, rejects it)"], timeout=300)
 
 for h in ["k_sample_writer_write_1ch_k0_m3", "k_sample_writer_write_1ch_k1_m4", "k_sample_writer_write_2ch_k3_m2", "k_sample_writer_write_2ch_k1_m1"]:
-    add("K-" + h[2:], ["C08"], E + h, tier="quick", bound="1-2 channels, block of 2, carry-over k and write length m fixed per instance; all sample values",
+    add("K-" + h[2:], ["C08", "C01"], E + h, tier="quick", bound="1-2 channels, block of 2, carry-over k and write length m fixed per instance; all sample values",
         functions=["encode::FlacSampleWriter::write"],
         contract="FlacSampleWriter::write with k samples carried over: blocks handed to the frame builder and to the MD5 are exactly the first floor((k+m)/F)*F samples of carry ++ input, in order, F at a time; the rest stays buffered in order",
         stubs=["audio::Frame::fill_from_samples (recorder)", "encode::update_md5 (recorder; contract K-update_md5_bytes_*)", "encode::Encoder::encode (contract K-encoder_encode_*)"], timeout=300)
@@ -417,7 +417,7 @@ for h in ["k_sample_writer_finalize_2ch_k3", "k_sample_writer_finalize_2ch_k1", 
         contract="FlacSampleWriter::finalize_inner: trailing partial PCM frame dropped, everything before it encoded and hashed as one last block, an empty block is never encoded, finalizes once, second call is a no-op",
         stubs=["audio::Frame::fill_from_samples", "encode::update_md5", "encode::Encoder::encode", "encode::Encoder::finalize_inner"], timeout=300)
 for h in ["k_byte_writer_write_le_k1_m4", "k_byte_writer_write_be_k1_m4", "k_byte_writer_write_be_k3_m6", "k_byte_writer_write_be_k0_m3"]:
-    add("K-" + h[2:], ["C08"], E + h, tier="quick", bound="mono 16-bit, block of 2 samples, carry-over k and write length m bytes fixed per instance (incl. writes ending mid-sample); all byte values",
+    add("K-" + h[2:], ["C08", "C01"], E + h, tier="quick", bound="mono 16-bit, block of 2 samples, carry-over k and write length m bytes fixed per instance (incl. writes ending mid-sample); all byte values",
         functions=["encode::FlacByteWriter::write", "byteorder::Endianness::bytes_to_le"],
         contract="FlacByteWriter::write with k bytes carried over: blocks handed on are the first floor((k+m)/B)*B bytes of carry ++ input converted sample-wise to little-endian exactly once; the remainder stays buffered unconverted in input order",
         stubs=["audio::Frame::fill_from_buf (recorder)", "encode::Encoder::encode"], timeout=300)
@@ -466,7 +466,7 @@ for h in ["k_stream_writer_zero_channels", "k_stream_writer_nine_channels", "k_s
         stubs=["audio::Frame::fill_from_samples", "stream::FrameHeader::write_subset", "encode::encode_subframe"], timeout=600)
 
 for h in ["k_frontend_new_bytes_2x16", "k_frontend_new_bytes_3x20", "k_frontend_new_bytes_0ch", "k_frontend_new_samples_2ch", "k_frontend_new_samples_0ch", "k_frontend_new_bps33", "k_frontend_new_bps0"]:
-    add("K-" + h[2:], ["C15"], E + h, tier="thorough" if h in ("k_frontend_new_bytes_3x20", "k_frontend_new_bps0") else "quick",
+    add("K-" + h[2:], ["C15"], E + h, tier="thorough" if h in ("k_frontend_new_bps0",) else "quick",
         bound="channel count and bit depth concrete per instance (0, 2, 3 channels; 0, 16, 20, 24, 33 bits: a symbolic 64-bit divisor does not finish); declared/undeclared and every total below 2^40",
         functions=["encode::FlacByteWriter::new", "encode::FlacSampleWriter::new", "encode::exact_div"],
         contract="FlacByteWriter::new / FlacSampleWriter::new never panic (also for 0 channels: no division by zero); bits-per-sample outside 1..=32 => InvalidBitsPerSample; a declared total that is not a whole number of PCM frames => "
@@ -477,6 +477,46 @@ add("K-struct_decode_constant_verbatim", ["C17"], S + "k_struct_decode_constant_
     functions=["stream::Subframe::decode"],
     contract="Subframe::decode for CONSTANT / VERBATIM: exactly block_size (resp. samples.len()) samples, each the stored sample shifted left by wasted_bps, in order "
              "(FIXED / LPC arms do not finish: Box<dyn Iterator> + flat_map + Vec::extend)", timeout=200)
+
+for h in ["k_lpc_reject_o1", "k_lpc_reject_o3"]:
+    add("K-" + h[2:], ["C05", "C04", "C03"], D + h, tier="quick", bound="predictor order 1 / 3 at 16 bits; all warm-up values, all 4-bit precision codes, all 5-bit shifts",
+        functions=["decode::read_lpc_subframe"],
+        contract="read_lpc_subframe: the reserved precision code 1111 => InvalidQlpPrecision, a negative 5-bit shift => NegativeLpcShift, exactly those; otherwise it goes on to the coefficients; never Ok on a stream that ends there", timeout=200)
+for h in ["k_struct_sub_lpc_shift_o1", "k_struct_sub_lpc_shift_o2"]:
+    add("K-" + h[2:], ["C17", "C05"], S + h, tier="quick", bound="LPC order 1 / 2 at 16 bits; all warm-up values, precision codes < 15, all 5-bit shifts",
+        functions=["stream::read_subframe", "stream::SubframeHeader::from_reader"],
+        contract="structural read_subframe rejects an LPC subframe iff its shift is negative (NegativeLpcShift), as the streaming decoder does (K-lpc_reject_*)", timeout=200)
+for h in ["k_struct_sub_parse_simple_nowaste", "k_struct_sub_parse_simple_wasted"]:
+    add("K-" + h[2:], ["C17"], S + h, tier="quick", bound="12-bit CONSTANT and VERBATIM subframes, block of 3, with / without wasted bits (all counts 1..11); all sample values",
+        functions=["stream::read_subframe", "stream::SubframeHeader::from_reader"],
+        contract="structural read_subframe on the RFC coding of CONSTANT / VERBATIM subframes returns exactly the coded sample(s), block size and wasted-bit count and consumes exactly the coding", timeout=300)
+add("K-struct_sub_rejects", ["C17", "C05"], S + "k_struct_sub_rejects", tier="quick", bound="12/16-bit subframes; wasted-bit counts 1..20; all 4-bit precision codes",
+    functions=["stream::read_subframe"],
+    contract="structural read_subframe: wasted bits >= bits-per-sample => ExcessiveWastedBits (and only then); QLP precision code 1111 => InvalidQlpPrecision (and only then)", timeout=200)
+for h, tier in [("k_struct_sub_parse_fixed_o0_zero3", "quick"), ("k_struct_sub_parse_fixed_o1_rice2", "thorough"), ("k_struct_sub_parse_fixed_o2_esc2", "thorough"), ("k_struct_sub_parse_lpc_o1_rice2", "thorough")]:
+    add("K-" + h[2:], ["C17"], S + h, tier=tier, bound="12-bit FIXED (order 0-2) / LPC (order 1) subframes with 2-3 residuals in one partition (Rice, escape, zero-width escape); all values and parameters",
+        functions=["stream::read_subframe", "stream::Residuals::from_reader", "stream::ResidualPartition::from_reader", "stream::ResidualPartitionHeader::from_reader"],
+        contract="structural read_subframe on the RFC coding of a FIXED / LPC subframe returns exactly the coded order, warm-up, precision, shift, coefficients, partition kind, parameter and residuals, and consumes exactly the coding "
+                 "(two-partition instances run CBMC out of memory)", timeout=900)
+
+for h, tier in [("k_dep_read_meta_fields", "quick"), ("k_dep_read_header_fields", "thorough"), ("k_dep_read_residual_k0_w1", "thorough"), ("k_dep_read_residual_k3_w17", "thorough"), ("k_dep_read_residual_k14_w32", "thorough")]:
+    add("K-" + h[2:], ["C03", "C11", "C12"], "verif_k::dep::" + h, tier=tier, bound="one script of 7-10 fields over 8 symbolic bytes truncated at every byte; field kinds: fixed-width unsigned, bit, whole byte / big- and little-endian integers, byte run, skip, "
+        "alignment query, unary run, run-time-width unsigned and two's-complement fields (widths 1, 17, 32)",
+        functions=["bitstream_io::BitReader (dependency, BigEndian)"],
+        contract="the real bitstream-io BitReader and the dependency contract harness/bits.rs (under which every other obligation runs the crate) return the same values, the same alignment answers and fail at the same point, for the same script of reads",
+        timeout=900)
+for h, tier in [("k_dep_write_signed_w32", "quick"), ("k_dep_write_unsigned_fields", "thorough"), ("k_dep_write_signed_w1", "thorough"), ("k_dep_write_unary_0", "thorough")]:
+    add("K-" + h[2:], ["C02"], "verif_k::dep::" + h, tier=tier, bound="scripts of 1-3 fields (4+12 bit unsigned; 1- and 32-bit two's complement + alignment; empty unary run + 3-bit field + alignment); all values. Longer scripts and other widths do not finish",
+        functions=["bitstream_io::BitWriter (dependency, BigEndian)"],
+        contract="the real bitstream-io BitWriter and the dependency contract harness/bits.rs accept / reject the same values and produce the same bytes for the same script of writes",
+        timeout=1500)
+
+for h in ["k_encoder_finalize_fault_none", "k_encoder_finalize_fault_seek", "k_encoder_finalize_fault_write"]:
+    add("K-" + h[2:], ["C13", "C09"], E + h, tier="quick", bound="one frame written, no seek table; fault position fixed per instance (none / repositioning fails / the sink rejects the rewrite)",
+        functions=["encode::Encoder::finalize_inner"],
+        contract="Encoder::finalize_inner reports success exactly when the stream was repositioned and the sink accepted the rewritten metadata; a failed reposition writes nothing; on success the bytes have reached the sink "
+                 "(not a buffer whose flush error is dropped)",
+        stubs=["metadata::write_blocks (writes one byte through the writer it is handed and propagates the outcome)", "md5::Context::finalize"], timeout=200)
 
 add("K-padding_roundtrip", ["C11", "C12"], M + "k_padding_roundtrip", tier="quick", bound="sizes <= 64 bytes; all stream contents and truncations",
     functions=["metadata::Padding::from_reader", "metadata::Padding::to_writer"],
